@@ -26,6 +26,7 @@ import (
 
 	"google.golang.org/protobuf/encoding/protojson"
 	"google.golang.org/protobuf/encoding/prototext"
+	"google.golang.org/protobuf/encoding/protowire"
 	"google.golang.org/protobuf/internal/strs"
 	"google.golang.org/protobuf/proto"
 	"google.golang.org/protobuf/reflect/protodesc"
@@ -600,6 +601,28 @@ func oneofWireCase(c *Ctx, t *oneofTarget, nocc int) {
 		fd := t.members[c.Intn(len(t.members))]
 		if lastfd != nil && c.Intn(3) == 0 {
 			fd = lastfd // repeated occurrence of the same member
+		}
+		if c.Intn(6) == 0 {
+			// malformed stream: an occurrence of a member with the wrong wire type is an unknown
+			// field; it must not select the member ("u" tokens are ignored by the model)
+			var wt protowire.Type
+			switch fd.Kind() {
+			case protoreflect.Fixed32Kind, protoreflect.Sfixed32Kind, protoreflect.FloatKind, protoreflect.Fixed64Kind,
+				protoreflect.Sfixed64Kind, protoreflect.DoubleKind, protoreflect.StringKind, protoreflect.BytesKind,
+				protoreflect.MessageKind, protoreflect.GroupKind:
+				wt = protowire.VarintType
+			default:
+				wt = protowire.Fixed32Type
+			}
+			buf = protowire.AppendTag(buf, fd.Number(), wt)
+			if wt == protowire.VarintType {
+				buf = protowire.AppendVarint(buf, c.U64()>>uint(c.Intn(64)))
+			} else {
+				buf = protowire.AppendFixed32(buf, uint32(c.U64()))
+			}
+			ins = append(ins, "u"+HexN(uint64(fd.Number())))
+			c.Stat("wire_wrong_type")
+			continue
 		}
 		src := t.mt.New()
 		v := oneofGenVal(c, src, fd)
